@@ -142,8 +142,7 @@ gen_dftconv(Src& s, int size)
        olen = json::array();
   for (int d = 0; d < D; ++d)
     {
-      // padded length 2 in the last dimension belongs to known finding C19-F4: rare
-      const int lg = (d == D - 1 && !s.chance(1, 25)) ? int(s.range(2, std::max(2, maxlg))) : int(s.range(1, maxlg));
+      const int lg = int(s.range(1, maxlg));
       const int P = 1 << lg;
       lgP.push_back(lg);
       int dl = s.coin() ? int(s.range(1, std::max(1, P / 2))) : int(s.range(1, P));
@@ -212,7 +211,7 @@ gen_convnd(Src& s, int size)
   c["kind"] = 3;
   const int D = s.coin() ? 2 : 3;
   c["d"] = D;
-  const bool f1 = s.chance(1, 25); // the class of known finding C19-F1 (excluded unless VERIF_NO_EXCLUDE=1)
+  const bool f1 = s.chance(1, 25); // steer towards kernels with outer range [0,0] and origin element 1 (see f1_class)
   const bool same_out = s.chance(1, 3);
   json kmin = json::array(), klen = json::array(), dmin = json::array(), dlen = json::array(), omin = json::array(), olen = json::array();
   for (int d = 0; d < D; ++d)
@@ -390,8 +389,8 @@ gen_sepimage(Src& s, int size)
       json f;
       int kl = s.chance(1, 5) ? 0 : int(s.range(1, 6));
       int km = int(s.range(-3, 2));
-      if (how == 0 && s.chance(4, 5))
-        { // mostly symmetric ranges for the constructor (the others belong to known finding C19-F3)
+      if (how == 0 && s.coin())
+        { // symmetric ranges for half of the constructor cases
           if (kl % 2 == 0 && kl > 0)
             ++kl;
           km = -(kl / 2);
@@ -554,50 +553,6 @@ nontrivial(const json& c)
   return true;
 }
 
-//! input classes excluded because of known findings (work/notes/C19_findings.md); "" when VERIF_NO_EXCLUDE=1.
-//! F2 (Gaussian, even max_kernel_size: only the "at most m elements" clause is relaxed to m+1) and the transform half of F4
-//! (inverse real-data clauses skipped for last-dimension length 2) are narrower than a case and are handled inside check(),
-//! counted as "excluded:C19:F2:..." / "excluded:C19:F4:...".
-std::string
-known_signature(const json& c)
-{
-  if (no_exclude())
-    return "";
-  const int kind = c.value("kind", -1);
-  if (kind == 3)
-    {
-      const int D = c.value("d", 3);
-      int kmin[3], klen[3];
-      get3(c, "kmin", D, kmin, 0);
-      get3(c, "klen", D, klen, 1);
-      for (int q = 0; q < 3; ++q)
-        if (klen[q] < 1)
-          return "";
-      Nd KT(kmin, klen);
-      fill_kernel(KT, c.at("kseed").get<uint64_t>(), c.at("kpat").get<int>());
-      if (D == 2 ? f1_class<2>(KT) : f1_class<3>(KT))
-        return "C19:F1:ArrayFilter2D/3DUsingConvolution kernel with outer range [0,0] whose origin element is 1 or outside the inner ranges";
-    }
-  if (kind == 7 && c.value("how", 1) == 0)
-    for (const auto& fj : c.at("f"))
-      {
-        const int kl = fj.at("klen").get<int>(), km = fj.at("kmin").get<int>();
-        if (kl > 0 && km + kl - 1 != -km)
-          return "C19:F3:SeparableConvolutionImageFilter constructed from a kernel with asymmetric index range";
-      }
-  if (kind == 2)
-    {
-      const json& lg = c.at("lgP");
-      if (lg.at(lg.size() - 1).get<int>() == 1)
-        return "C19:F4:inverse real-data transform with last-dimension length 2";
-    }
-  if (kind == 6)
-    for (std::size_t a = 0; a < 3; ++a)
-      if (c.at("maxk").at(a).get<int>() == 1 && c.at("fwhm").at(a).get<double>() > 0)
-        return "C19:F5:SeparableMetzArrayFilter with max_kernel_size 1";
-  return "";
-}
-
 } // namespace
 
 const Property&
@@ -610,7 +565,6 @@ the_property()
   p.nontrivial = nontrivial;
   p.enumerate = enumerate;
   p.fixed_cases = fixed_cases;
-  p.known_signature = known_signature;
   p.rule = "";
   return p;
 }
